@@ -191,8 +191,9 @@ def gen_conc_case(rng, mode=None):
     mode = mode or rng.choice(["asyncio", "asyncio", "threads"])
     g = GenRun(rng, is_async=True, faults=0.03, awaits=0.6)   # awaits are gates in both modes
     nf = rng.choice([1, 1, 2])
-    prog = g.program(nf=nf, nc=0)
+    prog = g.program(nf=nf, nc=rng.choice([0, 0, 1]))
     prog["async"] = (mode == "asyncio")
+    meths = [["meth", o, m] for o, c in enumerate(prog["objs"]) for m in range(len(prog["classes"][c]["meths"]))]
     # make sure the first function has a suspension point inside a contract or its body
     f0 = prog["fns"][0]
     if not f0["pre"]:
@@ -213,7 +214,11 @@ def gen_conc_case(rng, mode=None):
     for i in range(ntasks):
         h = rng.choice(["copy", "copy", "fresh"])
         inherit.append(h)
-        ops.append(["spawn", h, warm, ["fn", rng.randrange(nf) if rng.random() < 0.3 else 0]])
+        if meths and rng.random() < 0.6:
+            target = rng.choice(meths)            # several tasks on the methods of the same few objects
+        else:
+            target = ["fn", rng.randrange(nf) if rng.random() < 0.3 else 0]
+        ops.append(["spawn", h, warm, target])
     budget = [rng.choice([2, 3, 4]) for _ in range(ntasks)]
     slots = [i for i in range(ntasks) for _ in range(budget[i])]
     style = rng.random()
